@@ -467,6 +467,19 @@ def numeric_facts(v0, v1, sim0, sim1, env) -> Dict[str, Any]:
             now.append([int(round(tt_h * 3600_000)), int(tt_h * 3600)])
         if differs:
             facts["rt_now"] = now
+        # however the route's links are measured: the straight-line displacement of the step cannot exceed what the
+        # fastest of its links allows in the step (2 % + 5 m for the cell grid)
+        try:
+            import h3 as _h3
+
+            vmax = 0.0
+            for l in route0:
+                gt = sim0.road_network.link_from_link_id(l.link_id)
+                vmax = max(vmax, float(gt.speed_kmph) if gt is not None and gt.speed_kmph else float(l.speed_kmph))
+            geo_m = _h3.point_dist(_h3.h3_to_geo(v0.geoid), _h3.h3_to_geo(v1.geoid), unit="m")
+            facts["geo_ok"] = bool(geo_m <= vmax / 3.6 * dt * 1.02 + 5.0)
+        except Exception:
+            pass
     # a powertrain DEFINED with an idle consumption of zero (denver_rl_toy's toy_car) has nothing to expend when idling
     mech = env.mechatronics.get(v1.mechatronics_id)
     rate = getattr(mech, "idle_kwh_per_hour", getattr(mech, "idle_gallons_per_hour", None))
